@@ -2174,8 +2174,15 @@ def eval_schedule(ctx, deps, states, stale, endpoints):
         gcls = ctx.index.cls("gwf.core:Graph")
     except Exception:
         gcls = None
-    gattrs = dict(dependencies={T[n]: {T[d] for d in ds} for n, ds in deps.items()}, dependents={T[n]: {T[m] for m, ds in deps.items() if n in ds} for n in deps},
-                  targets={n: T[n] for n in deps}, provides={}, unresolved=set())
+    # dependencies / dependents as Graph.from_targets builds them: default-dictionaries that hold a key only for targets that HAVE dependencies / dependents
+    import collections as _c
+    dep_map, dpt_map = _c.defaultdict(set), _c.defaultdict(set)
+    for n_, ds_ in deps.items():
+        for d_ in ds_:
+            dep_map[T[n_]].add(T[d_])
+            dpt_map[T[d_]].add(T[n_])
+    keys_before = (set(dep_map), set(dpt_map))
+    gattrs = dict(dependencies=dep_map, dependents=dpt_map, targets={n: T[n] for n in deps}, provides={}, unresolved=set())
     graph = Obj("graph", **gattrs, **({"__class__": gcls} if gcls is not None else {}))
     submitted = []
 
@@ -2195,6 +2202,11 @@ def eval_schedule(ctx, deps, states, stale, endpoints):
     out = {}
     for k, v in dict(res).items():
         out[k.name] = v.member if isinstance(v, EnumVal) else v
+    grown = sorted(t_.name for t_ in (set(dpt_map) - keys_before[1]))
+    if grown:
+        # Graph.endpoints() is "the targets that are not a key of dependents": a read of graph.dependents[t] for a target without dependents inserts the key
+        return f"<the scheduler changes the graph: {grown} became keys of graph.dependents (a default-dictionary read inserts the key), so Graph.endpoints() no longer lists " \
+               "them - `gwf status --endpoints` drops targets that the unfiltered table, the dry run and the run still show>", submitted
     return out, submitted
 
 
